@@ -102,9 +102,11 @@ def encodeNamed (t : Table) (nfc : NFC) (name : String) (vals : List Value) : By
   | none => []
   | some s => encode t nfc s vals
 
-/-- `BlockHeader.Validate` (header fields: 3 previousBlockID, 4 generatorAddress, 14 signature) -/
+/-- `BlockHeader.Validate` (header fields: 3 previousBlockID, 4 generatorAddress, 14 signature, 8 stateRoot —
+the last since fix 4d58fae) -/
 def headerValid (h : List Value) : Bool :=
-  (fBytes h 3).length == 32 && (fBytes h 4).length == 20 && (fBytes h 14).length == 64
+  (fBytes h 3).length == 32 && (fBytes h 4).length == 20 && (fBytes h 14).length == 64 &&
+  (fBytes h 8).length == 32
 
 /-- strictly increasing in the byte order (Go string `<`) -/
 def strictlyIncreasing : List Bytes → Bool
